@@ -175,9 +175,8 @@ func c05UDPDeadline(c *Ctx, r *Report, rule string) {
 		nEx := 0
 		l := symInt(4)
 		sc := &Scenario{Name: "deadline", MaxVisit: 3,
-			Params:          map[string]SV{"recv": symRef("pc", false), "p0": {K: "slice", Desc: "b", Len: &l, Cap: &l}},
-			Heap:            map[string]SV{"pc.lastPacket": symNil(), "pc.idleTimer": symRef("idle", false), "pc.deadlineTimer": symRef("timer", false)},
-			NoDefaultInline: true,
+			Params: map[string]SV{"recv": symRef("pc", false), "p0": {K: "slice", Desc: "b", Len: &l, Cap: &l}},
+			Heap:   map[string]SV{"pc.lastPacket": symNil(), "pc.idleTimer": symRef("idle", false), "pc.deadlineTimer": symRef("timer", false)},
 		}
 		sc.Call = func(callee string, args []SV, ev *symEval, st *symState) (SV, bool) {
 			if callee == "layer4.(*packetConn).loadDeadline" {
@@ -261,6 +260,106 @@ func c05UDPDeadline(c *Ctx, r *Report, rule string) {
 				problems = append(problems, fmt.Sprintf("not all deadline situations were met (on entry %d, during the wait %d, early timer %d)", entry, during, early))
 			}
 			r.check(len(problems) == 0, rule, fname(fn), "deadline in Read", c.pos(fn.Pos()), fmt.Sprintf("%d paths: exceeded on entry %d, during the wait %d, early timer %d", len(paths), entry, during, early), strings.Join(dedup(problems), "; "))
+		}
+	}
+}
+
+// c05TimeoutWiring: the timeout the compiled routes work with is the configured matching_timeout, or the default when
+// none (or a non-positive one) is configured - wherever the value travels between Provision and the place that
+// compiles the routes. Provision is evaluated for matching_timeout 0, -5 and 7; the state it leaves is the state the
+// compiling function (Provision itself for servers and listener wrappers, Handle for subroutes) is evaluated in.
+func c05TimeoutWiring(c *Ctx, r *Report, rule string) {
+	r.rule(rule, "timeout wiring (path evaluation of Provision for matching_timeout 0 / -5 / 7, then of the function that compiles the routes in the state Provision left): RouteList.Compile is given the default matching timeout when none or a non-positive one is configured, the configured one otherwise - for servers, listener wrappers and subroutes", 9)
+	def := int64(-1)
+	if p := c.ByPath[modPath+"/layer4"]; p != nil {
+		def = constOf(scopeLookup(p.Types, "MatchingTimeoutDefault"))
+	}
+	if def <= 0 {
+		r.bad(rule, "layer4", "MatchingTimeoutDefault", "-", "the default matching timeout is not a positive constant")
+		return
+	}
+	calls := func(callee string, args []SV, ev *symEval, st *symState) (SV, bool) {
+		switch {
+		case callee == "layer4.(RouteList).Compile":
+			return symRef("compiled", false), true
+		case strings.HasPrefix(callee, "(*go.uber.org/zap.Logger)"), strings.HasPrefix(callee, "go.uber.org/zap."), strings.Contains(callee, "caddy/v2.Context).Logger"):
+			return symRef("logger", false), true
+		case callee == "fmt.Errorf":
+			return SV{K: "ref", Known: true, Desc: "errorf"}, true
+		}
+		return SV{}, false
+	}
+	for _, t := range []struct{ prov, user string }{
+		{"layer4.(*Server).Provision", "layer4.(*Server).Provision"},
+		{"layer4.(*ListenerWrapper).Provision", "layer4.(*ListenerWrapper).Provision"},
+		{"modules/l4subroute.(*Handler).Provision", "modules/l4subroute.(*Handler).Handle"},
+	} {
+		pf, uf := c.Fn(t.prov), c.Fn(t.user)
+		if pf == nil || uf == nil {
+			r.bad(rule, t.prov, "exists", "-", "Provision or the compiling function not found")
+			continue
+		}
+		for _, mt := range []int64{0, -5, 7} {
+			name := fmt.Sprintf("matching_timeout=%d", mt)
+			want := mt
+			if mt <= 0 {
+				want = def
+			}
+			sc := &Scenario{Name: name, MaxVisit: 4, MaxPaths: 4000, NoDefaultInline: true,
+				Params: map[string]SV{"recv": symRef("self", false)},
+				ByType: map[string]SV{"caddy/v2.Context": {K: "struct", Desc: "ctx"}},
+				Heap:   map[string]SV{"self.MatchingTimeout": symInt(mt)}, Call: calls}
+			paths, err := evalPaths(pf, sc)
+			if err != nil || len(paths) == 0 {
+				r.bad(rule, t.user, name, c.pos(pf.Pos()), fmt.Sprintf("undecided: %v", err))
+				continue
+			}
+			var problems []string
+			seen := 0
+			judge := func(p Path) {
+				for _, e := range p.Trace {
+					if e.Kind == "call" && e.What == "layer4.(RouteList).Compile" && len(e.Args) >= 3 {
+						seen++
+						if e.Args[2] != fmt.Sprint(want) {
+							problems = append(problems, fmt.Sprintf("the routes are compiled with the matching timeout %s, expected %d: with 0 the first wait for more bytes times out at once and the connection is dropped before any route or the fallback runs", e.Args[2], want))
+						}
+					}
+				}
+			}
+			ok := 0
+			for _, p := range paths {
+				if p.Outcome != "return" || len(p.Ret) != 1 || !(p.Ret[0].Known && p.Ret[0].Nil) {
+					continue // provisioning failed
+				}
+				ok++
+				if t.user == t.prov {
+					judge(p)
+					continue
+				}
+				heap := map[string]SV{}
+				for k, v := range p.Heap {
+					if strings.HasPrefix(k, "self.") {
+						heap[k] = v
+					}
+				}
+				sc2 := &Scenario{Name: name + ",use", MaxVisit: 4, MaxPaths: 2000, NoDefaultInline: true,
+					Params: map[string]SV{"recv": symRef("self", false)}, Heap: heap, Call: calls}
+				p2, err2 := evalPaths(uf, sc2)
+				if err2 != nil || len(p2) == 0 {
+					problems = append(problems, fmt.Sprintf("undecided: %v", err2))
+					continue
+				}
+				for _, q := range p2 {
+					judge(q)
+				}
+			}
+			if ok == 0 {
+				problems = append(problems, "no successful provisioning path")
+			}
+			if seen == 0 {
+				problems = append(problems, "the routes are not compiled on any evaluated path")
+			}
+			r.check(len(problems) == 0, rule, t.user, name, c.pos(uf.Pos()), fmt.Sprintf("compiled with %d", want), strings.Join(dedup(problems), "; "))
 		}
 	}
 }
